@@ -442,6 +442,19 @@ func c06Suite(c *Ctx) {
 				}
 			}
 		}
+		if !(okEq && !trueOutside) {
+			// decided on values: assuming the id equals no element of the supported list, no true result is reachable
+			// (guard clauses, `continue` forms and inverted tests alike)
+			pat := `re:eq\(id,idx\(supportedCipherSuites,.*\)\)`
+			reachable := true
+			ci.withAssumptions([]assumption{{pat, false}}, func() {
+				reachable, _ = canReachSuccess(f.Blocks[0], nil, successExits(f, resultSpec{0, "bool"}), deadEdges(f))
+			})
+			if !reachable && ci.valueMatches(pat) {
+				c.Holds(rule, fname(f), "a suite is selected only if its id is in the supported list", "assuming the id equals no element of supportedCipherSuites, no true result is reachable (decided on values)", f.Pos())
+				continue
+			}
+		}
 		c.Check(okEq && !trueOutside, rule, fname(f), "a suite is selected only if its id is in the supported list", "", "setCipherSuite can accept an id that is not in supportedCipherSuites", f.Pos())
 	}
 	for _, name := range []string{"(*serverHandshakeState).readClientHello", "(*serverHandshakeStateGM).readClientHello"} {
